@@ -85,6 +85,8 @@ def error_path_scenarios():
         scn("err-wait-path", SM("A", A=dict(Wt(1, End=True), InputPath="$.nope"))),
         scn("err-succeed-path", SM("A", A={"Type": "Succeed", "InputPath": "$.nope"})),
         scn("err-unknown-state", SM("A", A=P(Next="Nowhere"))),
+        # a transition, inside a branch, to a state name that two branches define (only reachable when the validator is off)
+        scn("err-duplicate-name", SM("P", P=S.Par([SM("A1", A1=P(Next="X"), X=P(End=True)), SM("B1", B1=P(Next="X"), X=P(End=True))], End=True))),
         scn("err-unknown-type", SM("A", A={"Type": "Bogus", "End": True})),
         scn("err-task-badarn", SM("A", A={"Type": "Task", "Resource": "arn:aws:nosuch:local::function:f", "End": True})),
         scn("err-task-unroutable", SM("A", A=T("nobody", End=True)), workers=[]),
